@@ -2061,7 +2061,7 @@ impl Tree {
                         if let Some(parent) = parent_stack.last() {
                             current_index = Some(tree.add_child(Node::new(), *parent, None)?);
                         } else {
-                            unreachable!("Sould not be possible to have named child with no parent")
+                            return Err(NewickParseError::NoSubtreeParent);
                         };
                         tree.get_mut(current_index.as_ref().unwrap())?
                     };
@@ -2097,7 +2097,7 @@ impl Tree {
                         if let Some(parent) = parent_stack.last() {
                             current_index = Some(tree.add_child(Node::new(), *parent, None)?);
                         } else {
-                            unreachable!("Sould not be possible to have named child with no parent")
+                            return Err(NewickParseError::NoSubtreeParent);
                         };
                         tree.get_mut(current_index.as_ref().unwrap())?
                     };
@@ -2134,7 +2134,13 @@ impl Tree {
                     if !open_delimiters.is_empty() {
                         return Err(NewickParseError::UnclosedBracket);
                     }
-                    let node = tree.get_mut(current_index.as_ref().unwrap())?;
+                    let index = match current_index {
+                        Some(index) => index,
+                        // A lone label is a tree made of a single node
+                        None if tree.nodes.is_empty() => tree.add(Node::new()),
+                        None => return Err(NewickParseError::NoSubtreeParent),
+                    };
+                    let node = tree.get_mut(&index)?;
                     node.name = current_name;
                     node.comment = current_comment;
                     if let Some(length) = current_length {
